@@ -9,6 +9,8 @@
 -/
 import YashModel.Common.Proto
 import YashModel.Exec.Builtins
+import YashModel.Exec.Identify
+import YashModel.Exec.SearchDriver
 namespace YashModel.Exec.Builtins
 open YashModel.Proto
 
@@ -59,9 +61,12 @@ def decDivert (t : String) : Option Divert :=
   | 'A' :: e => (decOpt (String.ofList e)).map Divert.abort
   | _ => none
 
-def runBi (toks : List String) : String :=
-  match toks with
-  | [which, portable, status, stack, args] =>
+def decGuard (t : String) : ExitGuard :=
+  match t.toList with
+  | [i, x, c, j] => { interactive := i == '1', posix := x == '1', configured := c == '1', stoppedJob := j == '1' }
+  | _ => {}
+
+def runBiG (which portable status stack args guard : String) : String :=
     match decStack stack, decArgs args, status.toNat? with
     | some stk, some as, some st =>
       let p := portable = "1"
@@ -70,7 +75,7 @@ def runBi (toks : List String) : String :=
         | "break" => some (showBreakParse (breakParse p as), breakMain true p stk as)
         | "continue" => some (showBreakParse (breakParse p as), breakMain false p stk as)
         | "return" => some ("-", returnMain p stk st as)
-        | "exit" => some ("-", exitMain p stk st as)
+        | "exit" => some ("-", exitMainG (decGuard guard) p stk st as)
         | _ => none
       match res with
       | none => "bad-case\t-"
@@ -79,6 +84,13 @@ def runBi (toks : List String) : String :=
         s!"p={ps} lc={loopCountChain stk 1}.{loopCountChain stk 2}.{loopCountChain stk usizeMax} cb={cb} " ++
           s!"st={r.exitStatus} dv={showRes r.divert}\t-"
     | _, _, _ => "bad-case\t-"
+
+/-- the optional sixth token `<interactive><posixlycorrect><guard configured><a job is stopped>` (four 0/1 digits)
+    sets up the suspended-jobs guard of `exit`; absent = `0000` -/
+def runBi (toks : List String) : String :=
+  match toks with
+  | [which, portable, status, stack, args] => runBiG which portable status stack args "0000"
+  | [which, portable, status, stack, args, guard] => runBiG which portable status stack args guard
   | _ => "bad-case\t-"
 
 def runDv (toks : List String) : String :=
@@ -91,11 +103,40 @@ def runDv (toks : List String) : String :=
     | _, _ => "bad-case\t-"
   | _ => "bad-case\t-"
 
-/-- the lines of the two families; `none` = not one of them -/
+/-- `id <v|V> <aliases: name=replacement in hex, comma separated, or .> <the six tokens of a search case>`:
+    `out=<hex of the line printed, or ->` for `v`, `kind=<class>` for `V` (= `type`), then `st=<exit status>` -/
+def showKind : Identify.Kind → String
+  | .keyword => "keyword" | .alias => "alias" | .function => "function" | .external => "external"
+  | .builtin t => s!"builtin-{Search.BType.letter t}"
+
+def decAliases (t : String) : Option (List (Str × Str)) :=
+  if t = "." then some []
+  else (t.splitOn ",").mapM fun a =>
+    match a.splitOn "=" with
+    | [n, r] => do pure (← decChars n, ← decChars r)
+    | _ => none
+
+def runId (toks : List String) : String :=
+  match toks with
+  | mode :: als :: rest =>
+    match decAliases als, Search.parseEnv rest with
+    | some aliases, some (env, name) =>
+      let (c, st) := Identify.identify { env := env, aliases := aliases } name
+      let body := match mode, c with
+        | "v", some c => s!"out={encChars (Identify.describeShort name c)}"
+        | "v", none => "out=-"
+        | _, some c => s!"kind={showKind c.kind}"
+        | _, none => "kind=-"
+      s!"{body} st={st}\t-"
+    | _, _ => "bad-case\t-"
+  | _ => "bad-case\t-"
+
+/-- the lines of the wave-3 families; `none` = not one of them -/
 def runLine? (line : String) : Option String :=
   match line.splitOn " " with
   | "bi" :: toks => some (runBi toks)
   | "dv" :: toks => some (runDv toks)
+  | "id" :: toks => some (runId toks)
   | _ => none
 
 end YashModel.Exec.Builtins
